@@ -316,7 +316,7 @@ func (l *Linter) lintSwitchStatement(stmt *ast.SwitchStatement, ctx *context.Con
 			case *ast.BreakStatement, *ast.FallthroughStatement:
 				break // parser already made sure break/fallthrough is at the end.
 			default:
-				l.lint(s, ctx)
+				l.lintStatement(s, ctx)
 			}
 		}
 	}
